@@ -156,8 +156,8 @@ CLAIMS = {
     note="'No good node => immediate close' is checked for searches started after the initial bootstrap (scope note in DESIGN §5 C04). Slack 50 ms for the timer wheel.",
     technique='TLA+ spec + TLC model checking (where a design-level model exists); TLC trace validation of recorded executions of real nodes'),
  "C11": dict(
-    category="exploration",
-    text='One real node with 1..12 scripted contacts (every partition into always-answering and silent-from-t, given directly or learned by hearsay, with and without searches, one contact unreachable for sending) runs for 1 h (thorough: 4 h) of virtual time; load_contacts() is sampled every 5 s and TLC checks on the recording: an always-answering contact is never missing once seen, is never questionable for more than 30 s (+5 s sampling slack), and a silent one is gone 20 min after its last answer or 5 min after it was last named.',
+    category="model_checking",
+    text='Design level: spec/Maintenance.tla (the status rules of RoutingTable.tla driven by the 6 s refresh and the 5 s re-bootstrap passes, discrete-event time) is checked by TLC over every partition of the contacts into always-answering / silent-from-t (0 s, 10 s, 14 min 58 s, 15 min), both regimes, round trips of 2 ms and 1998 ms, 40 min (thorough: 2 h): ResponsiveNeverLost, QuestionableAtMost30s, SilentGoneBy; the pinned bootstrap pass (asks a contact again while unanswered) must be caught. Binding: One real node with 1..12 scripted contacts (every partition into always-answering and silent-from-t, given directly or learned by hearsay, with and without searches, one contact unreachable for sending) runs for 1 h (thorough: 4 h) of virtual time; load_contacts() is sampled every 5 s and TLC checks on the recording: an always-answering contact is never missing once seen, is never questionable for more than 30 s (+5 s sampling slack), and a silent one is gone 20 min after its last answer or 5 min after it was last named.',
     design_ref='DESIGN.md §5 C11',
     note='Premises: loss-free network, no bucket full (at most 12 contacts in distinct buckets).',
     technique='TLA+ spec + TLC model checking (where a design-level model exists); TLC trace validation of recorded executions of real nodes'),
